@@ -174,6 +174,7 @@ def gen_case(rng, max_clients=6, max_ops=6):
           'seed': rng.choice([0, 0, None, rng.randrange(1000), rng.randrange(1000), rng.randrange(1000)]),
           'wk': rng.randrange(0, len(WKINDS)),       # dtype of the extra feature column w
           'wn': rng.randrange(0, len(WNAMES)),       # its name
+          'lay': rng.randrange(0, 1000),             # rotates the memory layout of every stored feature array
           'forms': rng.randrange(0, 1000),           # rotates argument delivery / call forms
           'bufnp': rng.random() < 0.3}               # buffer_size as np.int64
 
@@ -281,18 +282,63 @@ def _wobs(w):
   if w is None:
     return None
   w = np.asarray(w)
-  return [w.dtype.name, list(w.shape), [hx(v) for v in w] if w.dtype == object else w.tobytes().hex()]
+  if w.dtype == object:
+    return [w.dtype.name, list(w.shape), [hx(v) for v in w]]
+  return [w.dtype.name, list(w.shape), np.ascontiguousarray(w.astype(w.dtype.newbyteorder('='))).tobytes('C').hex()]
 
 
-def _examples(rows, wk=0, rot=0, wn=0):
+LAYOUTS = ['plain', 'fortran', 'transposed-view', 'strided', 'negative-stride', 'column-slice', 'read-only', 'byte-swapped']
+
+
+def _layout(a, sel):
+  """An array with the SAME shape, dtype kind and element values as `a` in another memory layout."""
+  kind = LAYOUTS[sel % len(LAYOUTS)]
+  if kind == 'fortran':
+    return np.asfortranarray(a)
+  if kind == 'transposed-view':              # a view (has a base) whose strides are those of Fortran order
+    return np.ascontiguousarray(a.T).T
+  if kind == 'strided':                      # every other row of a larger array
+    big = np.zeros((2 * a.shape[0],) + a.shape[1:], dtype=a.dtype)
+    big[1::2] = 1 if a.dtype.kind in 'iub' else 0      # junk between the real rows
+    big[::2] = a
+    return big[::2]
+  if kind == 'negative-stride':
+    return a[::-1].copy()[::-1]
+  if kind == 'column-slice' and a.ndim >= 2:  # non-contiguous columns of a wider array
+    big = np.zeros((a.shape[0], a.shape[1] + 3) + a.shape[2:], dtype=a.dtype)
+    big[:, 2:2 + a.shape[1]] = a
+    return big[:, 2:2 + a.shape[1]]
+  if kind == 'read-only':
+    b = a.copy()
+    b.setflags(write=False)
+    return b
+  if kind == 'byte-swapped' and a.dtype.kind in 'iufc' and a.dtype.itemsize > 1:
+    return a.astype(a.dtype.newbyteorder('S'))
+  return a
+
+
+def _vcol(orig):
+  """A rank-3 feature (n, 3, 2): v[r, a, b] = x_r + 3a + b."""
+  x = np.array(orig, dtype=np.int64).reshape(len(orig))
+  return (x[:, None, None] + 3 * np.arange(3)[None, :, None] + np.arange(2)[None, None, :]).astype(np.int16)
+
+
+def _examples(rows, wk=0, rot=0, wn=0, lay=None):
   """The stored examples of one client.  `rot` rotates the ORDER of the feature keys (the order of a
-  client's feature mapping carries no meaning: the same logical dataset)."""
+  client's feature mapping carries no meaning: the same logical dataset); `lay` rotates the MEMORY
+  LAYOUT of every feature array (same values: Fortran order, views, strides, read-only, byte-swapped)
+  and adds the rank-3 feature v."""
   x = np.array(rows, dtype=np.int64).reshape(len(rows))
   y = np.stack([x * 2, x * 2 + 1], axis=1).astype(np.int32).reshape(len(rows), 2)
   ex = {'x': x, 'y': y}
   w = _wcol(rows, wk)
   if w is not None:
     ex[WNAMES[wn]] = w
+  if lay is not None:
+    ex['v'] = _vcol(rows)
+    for j, k in enumerate(list(ex)):
+      if ex[k].dtype != object:
+        ex[k] = _layout(ex[k], lay + 3 * j)
   keys = list(ex)
   r = rot % len(keys)
   return {k: ex[k] for k in keys[r:] + keys[:r]}
@@ -311,12 +357,15 @@ def _call(f):
 
 def _dsobs(d):
   raw, al = d.raw_examples, d.all_examples()
-  meta = ';'.join(f'{k}:{v.dtype}:{"x".join(map(str, v.shape[1:]))}' for k, v in sorted(raw.items()))
-  meta_a = ';'.join(f'{k}:{v.dtype}:{"x".join(map(str, v.shape[1:]))}' for k, v in sorted(al.items()))
+  # dtype by NAME (byte order is storage, not content)
+  meta = ';'.join(f'{k}:{v.dtype.name}:{"x".join(map(str, v.shape[1:]))}' for k, v in sorted(raw.items()))
+  meta_a = ';'.join(f'{k}:{v.dtype.name}:{"x".join(map(str, v.shape[1:]))}' for k, v in sorted(al.items()))
   r = {'x': [int(v) for v in raw['x']], 'ax': [int(v) for v in al['x']],
        'y': [int(v) for v in np.asarray(raw['y']).reshape(-1)], 'ay': [int(v) for v in np.asarray(al['y']).reshape(-1)],
        'n': len(d), 'meta': meta if meta == meta_a else meta + ' / ' + meta_a}
-  extra = sorted(set(k for k in list(raw) + list(al) if k not in ('x', 'y', 'z')))
+  if 'v' in raw or 'v' in al:      # element-wise, in index order
+    r['v'] = [[int(e) for e in np.asarray(m['v']).reshape(-1)] if 'v' in m else None for m in (raw, al)]
+  extra = sorted(set(k for k in list(raw) + list(al) if k not in ('x', 'y', 'z', 'v')))
   if extra:
     r['w'] = _wobs(raw.get(extra[0]))
     r['aw'] = _wobs(al.get(extra[0]))
@@ -611,7 +660,7 @@ def run(case):
   from fedjax.core import federated_data as fdm
   from fedjax.core import in_memory_federated_data as imm
   from fedjax.core import sqlite_federated_data as sqm
-  wk, forms, wn = case.get('wk', 0), case.get('forms', 0), case.get('wn', 0)
+  wk, forms, wn, lay = case.get('wk', 0), case.get('forms', 0), case.get('wn', 0), case.get('lay')
   ds = [(unhx(i), rows) for i, rows in case['ds']]
   ids = [i for i, _ in ds]
   universe = ids + [unhx(a) for a in case['aliens']]
@@ -628,7 +677,7 @@ def run(case):
   try:
     path = os.path.join(tmp, 'fd.sqlite')
     # the caller's data: must stay as it is.  Clients list their features in different key orders.
-    owned = {i: _examples(rows, wk, forms + k if k else 0, wn) for k, (i, rows) in enumerate(ds)}
+    owned = {i: _examples(rows, wk, forms + k if k else 0, wn, None if lay is None else lay + k) for k, (i, rows) in enumerate(ds)}
     snap = _snapshot(owned)
     with sqm.SQLiteFederatedDataBuilder(path) as b:
       if forms % 2:
@@ -710,7 +759,7 @@ def run(case):
     return {'views': after, 'refused': refused, 'changed': changed, 'ctor': ctor_obs,
             'caller_intact': bool(intact and _snapshot(owned) == snap and all_ids_set == set(ids) and
                                   list(owned) == ids and
-                                  all(list(e) == list(_examples([], wk, forms + k if k else 0, wn)) for k, e in enumerate(owned.values()))),
+                                  all(list(e) == list(_examples([], wk, forms + k if k else 0, wn, lay)) for k, e in enumerate(owned.values()))),
             'kept_intact': all((_dsobs(kept[p]) if ids else None) == kept_before[p] for p in PIPES),
             'defaults_intact': defaults_clean and fdm.NoOpClientPreprocessor._fns == () and cdm.NoOpBatchPreprocessor._fns == ()}
   finally:
@@ -786,7 +835,7 @@ def reference(case):
   return stored, out, refused
 
 
-def _ref_dataset(stored, cid, cc, bc, wk=0, wn=0):
+def _ref_dataset(stored, cid, cc, bc, wk=0, wn=0, lay=None):
   x = list(stored[cid])
   rows = [(o, 0) for o in x]   # per surviving row: its stored x (y and w are functions of it) and what was added to y
   marked = False
@@ -809,10 +858,15 @@ def _ref_dataset(stored, cid, cc, bc, wk=0, wn=0):
   feats = {'x': 'x:int64:', 'y': 'y:int32:2'}
   if w is not None:
     feats[WNAMES[wn]] = WNAMES[wn] + ':' + ('bool' if WKINDS[wk] == 'bool' else 'int32' if WKINDS[wk] == 'int32big' else WKINDS[wk]) + ':'
+  if lay is not None:
+    feats['v'] = 'v:int16:3x2'
   if marked:
     feats['z'] = 'z:int16:'
   meta = ';'.join(feats[k] for k in sorted(feats))
   r = {'x': x, 'ax': ax, 'y': fy, 'ay': fay, 'n': len(x), 'meta': meta}
+  if lay is not None:
+    fv = [o + 3 * a + b for o in orig for a in range(3) for b in range(2)]
+    r['v'] = [fv, fv]
   if w is not None:
     r['w'] = r['aw'] = _wobs(w)
   return r
@@ -850,7 +904,7 @@ def oracle(case, obs):
   wk, seed = case.get('wk', 0), case['seed']
 
   def check_view(where, o, vis, cc, bc, bad):
-    want = {i: _ref_dataset(stored, i, cc, bc, wk, case.get('wn', 0)) for i in vis}
+    want = {i: _ref_dataset(stored, i, cc, bc, wk, case.get('wn', 0), case.get('lay')) for i in vis}
     items = [[hx(i), want[i]] for i in vis]
     if o['num'] != ['V', len(vis)]:
       bad('num-clients', f'{where}: num_clients {o["num"]}, the view has {len(vis)} clients')
